@@ -28,7 +28,11 @@ local function frame_args_index(new_args, key)
         if type(v) == "userdata" then
             -- Python tuple in luaexec.call_lua_sandbox.make_frame()
             local is_named, keep_left, keep_right = v[1], v[2], v[3]
-            v = frame:preprocess(v[0])
+            if v[4] then
+                v = v[0]  -- expanded already (argument of the parent frame)
+            else
+                v = frame:preprocess(v[0])
+            end
             -- https://en.wikipedia.org/wiki/Help:Template#Whitespace_handling
             -- (an end that <nowiki> content stands at is not trimmed)
             if is_named then
